@@ -2,7 +2,7 @@
    Only theorem statements, each closed by an exact lemma, and Print Assumptions. *)
 Require Import Verif.Common.Base Verif.Common.LockEv.
 Require Import Verif.Model.C20 Verif.Spec.C20 Verif.Proof.C20.
-Require Import Verif.Proof.C20_race Verif.Proof.C20_lin Verif.Proof.C20_ns Verif.Proof.C20_hist Verif.Proof.C20_nsgen Verif.Proof.C20_live.
+Require Import Verif.Proof.C20_race Verif.Proof.C20_lin Verif.Proof.C20_ns Verif.Proof.C20_hist Verif.Proof.C20_nsgen Verif.Proof.C20_live Verif.Proof.C20_mhist.
 Open Scope Z_scope.
 
 (* ---- back-off: attempts 0..30, durations in ns on int64 ---- *)
@@ -228,6 +228,67 @@ Theorem C20_model_meets_oracle_history : forall init ops,
 Proof. exact seq_model_meets_history_oracle. Qed.
 Print Assumptions C20_model_meets_oracle_history.
 
+(* THE MACHINE'S OWN HISTORIES MEET THE ORACLE.  Any number of threads, any registry program kp
+   (register / get / clone operations, each executing an arbitrary event list that is disciplined
+   on the one lock m, reads and writes only the object obj, lookups and snapshots not writing),
+   every schedule: once every operation has returned, the history recorded by the ghost observer
+   (Model/C20.v part e: step numbers as invocation and return times, lookups and snapshots with
+   what the object held at the step of their read) passes the history oracle hist_ok - the
+   check applied to the histories recorded from the real registries; every recorded event has its
+   return time; and the final contents are those of the sequential model run over the recorded
+   operations in the order of their accesses (a linearisation). *)
+Theorem C20_machine_history_meets_oracle :
+  forall (m obj : string) (init0 : rmap) kp (dat : string -> option rmap) sched s g,
+    kprogs_ok m obj kp -> dat obj = Some init0 -> (forall o, dat o <> None) ->
+    irun kp obj (init (map (map gop) kp) dat) ghost0 sched = Some (s, g) -> finished s = true ->
+    hist_ok init0 (hist_of g) = true /\
+    (forall e, In e (gh_ents g) -> exists r, ge_ret e = Some r) /\
+    s_data s obj = Some (snd (seq_run init0 (map ge_op (gh_ents g)))).
+Proof. intros m obj init0 kp dat sched s g Hk. exact (machine_history_ok m obj init0 kp Hk dat sched s g). Qed.
+Print Assumptions C20_machine_history_meets_oracle.
+
+(* the recorded events are the machine's own results: what a completed lookup / snapshot returned
+   (its entry in the thread's log; RNone only for a body that never read) is what one of the
+   recorded events of that very operation observed *)
+Theorem C20_machine_results_recorded :
+  forall (m obj : string) (init0 : rmap) kp (dat : string -> option rmap) sched s g t th kpt i o r x,
+    kprogs_ok m obj kp -> dat obj = Some init0 -> (forall ob, dat ob <> None) ->
+    irun kp obj (init (map (map gop) kp) dat) ghost0 sched = Some (s, g) ->
+    nth_error (s_threads s) t = Some th -> nth_error kp t = Some kpt ->
+    nth_error (t_log th) i = Some (o, r) -> nth_error kpt i = Some x -> (forall k v, fst x <> GReg k v) ->
+    res_tied g t i r.
+Proof.
+  intros m obj init0 kp dat sched s g t th kpt i o r x Hk.
+  exact (machine_results_recorded m obj init0 kp Hk dat sched s g t th kpt i o r x).
+Qed.
+Print Assumptions C20_machine_results_recorded.
+
+(* the observer is a ghost: it exists for every execution and never changes one *)
+Theorem C20_observer_is_ghost : forall kp obj sched s g,
+  (forall s', run s sched = Some s' -> exists g', irun kp obj s g sched = Some (s', g')) /\
+  (forall s' g', irun kp obj s g sched = Some (s', g') -> run s sched = Some s').
+Proof. intros kp obj sched s g. split; [intros s'; apply run_irun|intros s' g'; apply irun_run]. Qed.
+Print Assumptions C20_observer_is_ghost.
+
+(* re-timing: a list of operations whose sequential timing passes the Prop-level oracle passes it
+   under any timing whose real-time precedence (A returned before B was invoked) is respected by the
+   list order *)
+Theorem C20_history_retiming : forall (init : rmap) (L : list hev),
+  (forall p q a b, nth_error L p = Some a -> nth_error L q = Some b -> (snd a <= snd (fst b))%Z -> (p < q)%nat) ->
+  Forall (chkP init (writes_of (seq_hist 0 (map (fun e : hev => fst (fst e)) L)))) (seq_hist 0 (map (fun e : hev => fst (fst e)) L)) ->
+  Forall (chkP init (writes_of L)) L.
+Proof. exact retime. Qed.
+Print Assumptions C20_history_retiming.
+
+(* from the regenerated obligations, through LockEv.owner_one_lock_method (name-free: the lock is
+   whatever the method's owner uses), to the hypothesis wf_op of every theorem above *)
+Theorem C20_facts_bridge_owner : forall (D X : Type) ms x,
+  all_paths_disciplined ms = true -> all_paths_owner_one_lock ms = true ->
+  In x ms -> is_init (fst x) = false ->
+  exists m, forall (o : @op D X), In (o_body o) (snd x) -> wf_op m o.
+Proof. intros D X. exact (@facts_bridge_owner D X). Qed.
+Print Assumptions C20_facts_bridge_owner.
+
 (* the hypotheses are met by the event lists of register.Untyped *)
 Example C20_ex_untyped_wf : forall k v,
   wf_op "mutex" (reg_op untyped_register_body k v) /\
@@ -307,3 +368,16 @@ Proof. split; vm_compute; reflexivity. Qed.
 Example C20_ex_recursive_rlock_refuted :
   disciplined [LRLock "mutex"; LRLock "mutex"; LRead "renderRegister"; LRUnlock "mutex"; LRUnlock "mutex"] = false.
 Proof. vm_compute. reflexivity. Qed.
+
+(* non-vacuity of the machine-history theorem: a registration and a lookup of the same key under
+   the event lists of register.Untyped; the recorded history of one interleaving (the lookup
+   waits for the writer's lock and returns the newly registered value) *)
+Definition ex_kp : list (list (gkind * list lev)) :=
+  [[(GReg "json" 7%Z, untyped_register_body)]; [(GGet "json", untyped_get_body)]].
+Example C20_ex_machine_history :
+  kind_body_ok "data" (GReg "json" 7%Z, untyped_register_body) && kind_body_ok "data" (GGet "json", untyped_get_body) = true /\
+  option_map (fun sg => (finished (fst sg), hist_of (snd sg)))
+    (irun ex_kp "data" (init (map (map gop) ex_kp) ex_dat) ghost0 [0; 1; 0; 0; 0; 1; 1; 1; 1; 0]) =
+  Some (true, [(RReg "json" 7%Z, 1%Z, 10%Z); (RGet "json" (Some 7%Z), 2%Z, 9%Z)]) /\
+  hist_ok [("json", 1%Z)] [(RReg "json" 7%Z, 1%Z, 10%Z); (RGet "json" (Some 7%Z), 2%Z, 9%Z)] = true.
+Proof. repeat split; vm_compute; reflexivity. Qed.
